@@ -159,6 +159,7 @@ pub fn load_u(r: &mut Rec, k: usize, d: &[u64]) {
     let extra = format!("\"bytes\":{}", bytes_json(&bytes));
     let tight = std::env::var_os("HARNESS_GUARD").is_some();
     let dirty = std::env::var_os("HARNESS_DIRTY").is_some();
+    let roomy = std::env::var_os("HARNESS_ROOMY").is_some();
     r.op("from_bytes_le", "U", &[], &[u(k)], &extra, |g| {
         if dirty {
             // same value, but built by shrinking a longer one in place: non-zero memory behind the digits
@@ -173,6 +174,11 @@ pub fn load_u(r: &mut Rec, k: usize, d: &[u64]) {
         if tight {
             // the digits exactly fill their allocation
             g.u[k].verif_shrink();
+        }
+        if roomy && k % 2 == 0 {
+            // even registers keep the large buffer of an in-place predecessor, odd ones stay as allocated: binary operations
+            // then meet operands whose capacities are ordered differently from their lengths
+            g.u[k].verif_reserve(2 * d.len() + 80);
         }
         Ret::none()
     });
@@ -203,6 +209,10 @@ pub fn load_i_from_u(r: &mut Rec, k: usize, sign: Sign, s: usize) {
     let extra = format!("\"sgn\":{}", sgn_num(sign));
     r.op("from_biguint", "I", &[u(s)], &[i(k)], &extra, |g| {
         g.i[k] = BigInt::from_biguint(sign, g.u[s].clone());
+        if std::env::var_os("HARNESS_ROOMY").is_some() && k % 2 == 0 {
+            let n = g.u[s].verif_raw().len();
+            g.i[k].verif_reserve(2 * n + 80);
+        }
         Ret::none()
     });
 }
